@@ -45,6 +45,12 @@ type Case struct {
 	// Micro: the last node and the last link are a node 1.2 identification tolerances from a within-tolerance spelling of
 	// another node, and the link between the two
 	Micro bool `json:"micro,omitempty"`
+	// Trap: the network was moved 1e8 along x only (|x| is a million times |y|, as a long thin strip of map far east of
+	// its origin has it), and the last two nodes F and P and the last two links end next to an existing node N: P within
+	// N's identification tolerance (which is 0.2 wide in x out there), F a little beside P in y - nearer to P than N
+	// is, but not "the same point" as P. A link end is the nearest existing node if that is the same point, else a
+	// new node: P is a new node, and the link ending there does not reach N.
+	Trap bool `json:"trap,omitempty"`
 }
 
 type EarlyQ struct {
@@ -223,6 +229,38 @@ func gen(t *rapid.T) Case {
 		for i := range c.Early {
 			c.Early[i].From, c.Early[i].To = mv(c.Early[i].From), mv(c.Early[i].To)
 		}
+	}
+	if !jitter && !c.Bisector && !c.Micro && c.Offset == 0 && len(c.Links) >= 1 && len(c.Nodes) >= 3 && rapid.IntRange(0, 7).Draw(t, "trap") == 4 {
+		const off = 1e8
+		mv := func(p vkit.P2) vkit.P2 { return vkit.MkP(float64(p[0])+sx*off, float64(p[1])) }
+		for i := range c.Nodes {
+			c.Nodes[i] = mv(c.Nodes[i])
+		}
+		for i := range c.Links {
+			for j := range c.Links[i].Mid {
+				c.Links[i].Mid[j] = mv(c.Links[i].Mid[j])
+			}
+		}
+		for i := range c.Early {
+			c.Early[i].From, c.Early[i].To = mv(c.Early[i].From), mv(c.Early[i].To)
+		}
+		l0 := c.Links[rapid.IntRange(0, len(c.Links)-1).Draw(t, "traplink")]
+		nIdx, qIdx := l0.A, l0.B
+		N := c.Nodes[nIdx]
+		dxp := rapid.Float64Range(0.03, 0.09).Draw(t, "trapdx") * float64(rapid.SampledFrom([]int{-1, 1}).Draw(t, "trapsx"))
+		dyf := math.Abs(dxp) * rapid.Float64Range(0.1, 0.5).Draw(t, "trapdy") * float64(rapid.SampledFrom([]int{-1, 1}).Draw(t, "trapsy"))
+		P := vkit.MkP(float64(N[0])+dxp, float64(N[1]))
+		F := vkit.MkP(float64(P[0]), float64(P[1])+dyf)
+		c.Nodes = append(c.Nodes, F, P)
+		fIdx, pIdx := len(c.Nodes)-2, len(c.Nodes)-1
+		// a third node for F's link, so that the two new links are not parallel
+		rIdx := (qIdx + 1) % (len(c.Nodes) - 2)
+		for rIdx == nIdx || rIdx == qIdx {
+			rIdx = (rIdx + 1) % (len(c.Nodes) - 2)
+		}
+		c.Links = append(c.Links, Link{A: fIdx, B: rIdx, Speed: 1}, Link{A: pIdx, B: qIdx, Speed: 1})
+		c.From, c.To = c.Nodes[qIdx], N
+		c.Trap = true
 	}
 	return c
 }
@@ -449,6 +487,9 @@ func run(c Case) (v vkit.Verdict) {
 	v.Class(fmt.Sprintf("time_%v", c.Time))
 	if c.Offset != 0 {
 		v.Class(fmt.Sprintf("network_%g_from_the_origin", c.Offset))
+	}
+	if c.Trap {
+		v.Class("link_end_within_tolerance_of_a_node_that_is_not_its_nearest")
 	}
 	if c.Micro {
 		v.Class("link_barely_longer_than_the_identification_tolerance")
